@@ -77,11 +77,12 @@ def parse_row(ints):
     return hist
 
 
-def fresh(ftype, tpb, tracks):
+def fresh(ftype, tpb, tracks, frozen=False):
     import mido
+    from mido.frozen import freeze_message
     mid = mido.MidiFile(type=ftype, ticks_per_beat=tpb)
     for tr in tracks:
-        mid.tracks.append(mido.MidiTrack(mk(dt, i) for dt, i in tr))
+        mid.tracks.append(mido.MidiTrack((freeze_message(mk(dt, i)) if frozen else mk(dt, i)) for dt, i in tr))
     return mid
 
 
@@ -215,6 +216,14 @@ def replay_history(hist):
     import mido
     # the user hands its own (still empty) list of tracks to the constructor and goes on editing
     # through it (only assigning a new list to mid.tracks makes that reference stale)
+    # in histories that never assign to a message, every second one builds its tracks from FROZEN
+    # messages: what a file shows is a function of its contents, whatever class carries them - and
+    # observing it must leave those (immutable) messages exactly as they were
+    from mido.frozen import freeze_message
+    frozen = len(hist) % 4 < 2 and not any(h[0] in ('msg_time', 'msg_attr', 'msg_swap', 'track_name') for h in hist)
+
+    def mk_(dt, ident):
+        return freeze_message(mk(dt, ident)) if frozen else mk(dt, ident)
     held = []
     mid = mido.MidiFile(type=1, ticks_per_beat=480, tracks=held)
     if len(hist) % 2:
@@ -224,20 +233,20 @@ def replay_history(hist):
             if op == 'add_track':
                 mid.add_track()
             elif op == 'tracks_append':
-                held.append(mido.MidiTrack([mk(a, b)]))
+                held.append(mido.MidiTrack([mk_(a, b)]))
             elif op == 'tracks_remove':
                 del held[a - 1]
             elif op == 'msg_append':
                 # the three spellings of "add a message to this track"
                 t_ = held[a - 1]
                 if (b + c) % 3 == 0:
-                    t_.append(mk(b, c))
+                    t_.append(mk_(b, c))
                 elif (b + c) % 3 == 1:
-                    t_ += [mk(b, c)]            # in place: the file's own track grows
+                    t_ += [mk_(b, c)]            # in place: the file's own track grows
                 else:
-                    t_.extend(x for x in [mk(b, c)])
+                    t_.extend(x for x in [mk_(b, c)])
             elif op == 'msg_insert':
-                mid.tracks[a - 1].insert(0, mk(b, c))
+                mid.tracks[a - 1].insert(0, mk_(b, c))
             elif op == 'msg_delete':
                 del mid.tracks[a - 1][b - 1]
             elif op == 'msg_time':
@@ -249,7 +258,7 @@ def replay_history(hist):
                 else:
                     m.note, m.channel = c % 128, c // 128
             elif op == 'msg_replace':
-                mid.tracks[a - 1][b - 1] = mk(mid.tracks[a - 1][b - 1].time, c)
+                mid.tracks[a - 1][b - 1] = mk_(mid.tracks[a - 1][b - 1].time, c)
             elif op == 'tracks_reverse':
                 mid.tracks = list(reversed(mid.tracks))
                 held = mid.tracks
@@ -285,7 +294,7 @@ def replay_history(hist):
                 # an attempt to save that fails half-way (a delta time that cannot be stored in the
                 # LAST message) and is repaired must leave nothing behind on the object
                 last = [t[-1] for t in mid.tracks if len(t)]
-                if last:
+                if last and not frozen:
                     old = last[-1].time
                     last[-1].time = 0.5
                     try:
@@ -295,7 +304,7 @@ def replay_history(hist):
                     finally:
                         last[-1].time = old
             got = observe(mid, op)
-            ref = observe(fresh(ftype, tpb, tracks), 'iterate' if op == 'iter_nested' else op)
+            ref = observe(fresh(ftype, tpb, tracks, frozen), 'iterate' if op == 'iter_nested' else op)
             if got != ref:
                 ops = [h[0] for h in hist[:n + 1]]
                 return ('stale/' + op, 'step %d: %s gave %r, a fresh file with the same contents gives %r (history %s)' % (
